@@ -15,6 +15,7 @@ import (
 	"bytes"
 	"context"
 	"encoding/binary"
+	"encoding/json"
 	"errors"
 	"fmt"
 	"math/rand"
@@ -469,8 +470,9 @@ func (n *node) roots() []string {
 
 type loopObs struct {
 	Root     string  `json:"root"`
-	At       *parked `json:"at,omitempty"`    // parked there at the stop instant
-	Stuck    *parked `json:"stuck,omitempty"` // still parked there at the deadline
+	At       *parked `json:"at,omitempty"`           // parked there at the stop instant
+	Stuck    *parked `json:"stuck,omitempty"`        // still parked there at the deadline
+	InCall   string  `json:"in_call_from,omitempty"` // at the stop instant the loop was inside a call to a double, made from this function
 	Returned bool    `json:"returned"`
 	AfterMs  int64   `json:"returned_after_ms,omitempty"` // virtual time between the stop request and the return
 }
@@ -538,6 +540,8 @@ func runCase(t *testing.T, c *Case, rootDir string) (out *caseOut) {
 			lo := loopObs{Root: root}
 			if p := find(at, root); p != nil && !p.Ext {
 				lo.At = p
+			} else if p != nil {
+				lo.InCall = p.Func
 			}
 			if rt, ok := n.returned[root]; ok {
 				lo.Returned = true
@@ -725,7 +729,7 @@ func pick[T any](r *rand.Rand, xs ...T) T { return xs[r.Intn(len(xs))] }
 
 func genCase(seed int64, idx int) *Case {
 	r := rand.New(rand.NewSource(seed*1000003 + int64(idx)))
-	c := &Case{Seed: seed, Idx: idx, InitialHeight: 1, DeadlineMs: 3000}
+	c := &Case{Seed: seed, Idx: idx, InitialHeight: 1, DeadlineMs: 1000}
 	c.BlockTimeMs = pick[int64](r, 200, 500, 1000)
 	c.DABlockTimeMs = pick[int64](r, 300, 1000, 2000)
 	c.ExecDelayMs = pick[int64](r, 0, 0, 50, 400)
@@ -739,7 +743,7 @@ func genCase(seed int64, idx int) *Case {
 	if r.Intn(10) == 0 {
 		c.FinalFailAt = uint64(1 + r.Intn(3))
 	}
-	switch r.Intn(6) {
+	switch r.Intn(10) {
 	case 0:
 		c.StopAtMs = 0
 	case 1:
@@ -754,7 +758,7 @@ func genCase(seed int64, idx int) *Case {
 		if r.Intn(2) == 0 {
 			c.GenesisOffset = -int64(r.Intn(5000))
 		} else {
-			c.GenesisOffset = int64(100 + r.Intn(6000))
+			c.GenesisOffset = int64(100 + r.Intn(4000))
 		}
 		if r.Intn(4) == 0 {
 			c.InitialHeight = 5
@@ -971,6 +975,9 @@ func TestVerif(t *testing.T) {
 				a = lo.At.desc()
 				res.Count("parked-at-stop:" + lo.At.Func + "/" + lo.At.Kind)
 			}
+			if lo.InCall != "" {
+				res.Count("in-external-call-at-stop:" + lo.InCall)
+			}
 			if lo.Stuck != nil {
 				s = lo.Stuck.desc()
 				res.Count("stuck:" + stuckSignature(lo.Stuck))
@@ -1009,11 +1016,17 @@ func TestVerif(t *testing.T) {
 			res.Samples = append(res.Samples, map[string]interface{}{"case": c, "loops": o.loops, "blocks_committed": o.height, "da_included": o.included})
 		}
 	}
+	if d := os.Getenv("VERIF_C13_DUMP_SCENARIOS"); d != "" { // maintenance aid: write the scenario cases as replay files
+		for _, c := range scenarios() {
+			b, _ := json.MarshalIndent(c, "", " ")
+			_ = os.WriteFile(filepath.Join(d, "C13-"+c.Scenario+".json"), b, 0o644)
+		}
+	}
 	if len(scen) > 0 {
 		res.Extra["part_B_scenarios"] = scen
 	}
 	res.Distinct = len(distinct)
-	res.Rule = "the node's loop fan-out as in FullNode.Run (one-slot errCh, five loops per mode, select on errCh / parent context, wg.Wait; compared with node/full.go on every run), real block.Manager / Reaper / store, unmodified loops, in a synctest bubble; doubles: execution layer (per-call delay, cancellation lag, may ignore its context, may fail from a height on), FIFO sequencer, DA layer (delays, every k-th call fails), broadcasters, P2P stores; aggregator cases (55%): genesis 0..5 s in the past or 0.1..6 s in the future, lazy 30%, initial height 1 or 5, pending limit 0/2/5, mempool 0/150/700 ms, DA fast/slow; full-node cases (45%): the proposer's chain of 2..8 blocks made by a real aggregator Manager and submitted with its own code, delivered by DA, P2P or both; stop instant 0, <50 ms or uniform in 0..12 s; verdict 3 s (virtual) after the stop request; plus one fixed scenario per operation the regenerated table lists as not cancellable; non-trivial = at least one block committed; distinct = distinct (mode, lazy, genesis sign, parking positions, stuck positions)"
+	res.Rule = "the node's loop fan-out as in FullNode.Run (one-slot errCh, five loops per mode, select on errCh / parent context, wg.Wait; compared with node/full.go on every run), real block.Manager / Reaper / store, unmodified loops, in a synctest bubble; doubles: execution layer (per-call delay, cancellation lag, may ignore its context, may fail from a height on), FIFO sequencer, DA layer (delays, every k-th call fails), broadcasters, P2P stores; aggregator cases (55%): genesis 0..5 s in the past or 0.1..6 s in the future, lazy 30%, initial height 1 or 5, pending limit 0/2/5, mempool 0/150/700 ms, DA fast/slow; full-node cases (45%): the proposer's chain of 2..8 blocks made by a real aggregator Manager and submitted with its own code, delivered by DA, P2P or both; stop instant 0, <50 ms or uniform in 0..12 s; verdict 1 s (virtual) after the stop request; plus one fixed scenario per operation the regenerated table lists as not cancellable; non-trivial = at least one block committed; distinct = distinct (mode, lazy, genesis sign, parking positions, stuck positions)"
 	sort.Strings(dt.defs)
 	res.Cases = len(cases)
 	header := "From Coq Require Import String NArith List Bool.\nFrom Verif Require Import Model.StopProto gen.BlockPoints Check.StopCheck."
